@@ -113,6 +113,30 @@ mut("c17-ready-push-conditional", "C17", "C17.R2", (RM, "            merged_rang
 mut("c17-pending-when-not-collecting", "C17", "C17.R1", (RM, "if collect_pending_removals {\n                                        create(el", "if collect_pending_removals || true {\n                                        create(el"))
 mut("c17-ready-depends-on-flag", "C17", "C17.R1", (RM, "true => create(el, &self.remove_strategies).map(|f| (f, true)),", "true => create(el, &self.remove_strategies).map(|f| (f, !collect_pending_removals)),"))
 
+# ---------------------------------------------------------------- C02 / C14
+mut("c02-replace-with-space", "C02", "C02.R1", (RM, 'new_content.replace_range(marker.clone(), "");', 'new_content.replace_range(marker.clone(), " ");'))
+mut("c02-forward-deletion", "C02", "C02.R2", (RM, "for (marker, _) in markers.iter().rev() {", "for (marker, _) in markers.iter() {"))
+mut("c02-format-forward-deletion", "C02", "C02.R2", (FM, "        .into_iter()\n        .rev()\n        .fold(content.to_string()", "        .into_iter()\n        .fold(content.to_string()"))
+mut("c02-overlap-merge-dropped", "C02", "C02.R3", (FM, "    merge_ranges(&mut ranges, open_structure_remove_range);\n    merge_overlapped_ranges(&mut ranges);\n", "    merge_ranges(&mut ranges, open_structure_remove_range);\n"))
+mut("c02-cr-skipped", "C02", "C02.R4", (LB, "        Some(b'\\t') => CheckResult::Skip,\n        Some(b'\\n') => CheckResult::Found,", "        Some(b'\\t') => CheckResult::Skip,\n        Some(b'\\r') => CheckResult::Skip,\n        Some(b'\\n') => CheckResult::Found,"))
+mut("c02-default-arm-skips", "C02", "C02.R4", (LB, "        None => CheckResult::None,\n        _ => CheckResult::None,", "        None => CheckResult::None,\n        _ => CheckResult::Skip,"))
+mut("c02-scanner-step-two", "C02", "C02.R4", (LB, "            }\n        }\n\n        cursor += 1;", "            }\n        }\n\n        cursor += 2;"))
+mut("c02-nonboundary-found", "C02", "C02.R4", (LB, "    if !content.is_char_boundary(*cursor) {\n        return CheckResult::Skip;\n    }\n    match bytes.get(*cursor) {\n        Some(b' ') => CheckResult::Skip,\n        Some(b'\\t') => CheckResult::Skip,\n        Some(b'\\n')", "    match bytes.get(*cursor) {\n        Some(b' ') => CheckResult::Skip,\n        Some(b'\\t') => CheckResult::Skip,\n        Some(b'\\n')"))
+mut("c02-indent-underscore", "C02", "C02.R4", (IR, "                    Some(b'\\t') => {}", "                    Some(b'\\t') => {}\n                    Some(b'_') => {}"))
+mut("c02-prev-remover-not-pausing", "C02", "C02.R5", (PL, "find_prev_line_break_pos(content, bytes, byte_pos, true)", "find_prev_line_break_pos(content, bytes, byte_pos, false)"))
+mut("c02-empty-line-two-bytes", "C02", "C02.R6", (EL, "            (byte_pos, byte_pos + 1)", "            (byte_pos, byte_pos + 2)"))
+mut("c02-empty-line-unguarded", "C02", "C02.R6", (EL, "        if bytes.get(byte_pos) != Some(&b'\\n') {\n            return (byte_pos, byte_pos);\n        }\n", ""))
+mut("c02-dedent-unclamped", "C02", "C02.R6b", (BI, "let end = std::cmp::min(start + indent_len, indent_pos);", "let end = start + indent_len;"))
+mut("c02-dedent-seam-unguarded", "C02", "C02.R6b", (BI, "        if bytes.get(start_byte_pos) != Some(&b'\\n') {\n            return vec![];\n        }\n", ""))
+mut("c02-clean-trims-result", "C02", "C02.R1", (CH, "    formatter::format(&removed, &removed_pos, &formatter, &structure_formatters)\n}", "    formatter::format(&removed, &removed_pos, &formatter, &structure_formatters)\n        .trim_end()\n        .to_string()\n}"))
+mut("c02-unwrap-head-from-tag-end", "C02", "C02.R7", (UB, "                        el.start_token.byte_start..end,", "                        el.start_token.byte_end..end,"))
+mut("c02-unwrap-guard-inverted", "C02", "C02.R7", (UB, "if start > end {", "if start < end {"))
+mut("c02-next-remover-plus-two", "C02", "C02.R6", (NL, "find_next_line_break_pos(content, bytes, pos + 1, true)", "find_next_line_break_pos(content, bytes, pos + 2, true)"))
+mut("c14-char-finder-skips-newline", "C14", "C14.R1", (CP, "        Some(b'\\t') => CheckResult::Skip,", "        Some(b'\\t') => CheckResult::Skip,\n        Some(b'\\n') => CheckResult::Skip,"))
+mut("c14-empty-line-not-pausing", "C14", "C14.R2", (EL, "find_next_line_break_pos(content, bytes, byte_pos, true)", "find_next_line_break_pos(content, bytes, byte_pos, false)"))
+mut("c14-prev-remover-reaches-further", "C14", "C14.R3", (PL, "return (line_break_pos + 1, byte_pos);", "return (line_break_pos - 1, byte_pos);"))
+mut("c14-dedent-start-unclamped", "C14", "C14.R4", (BI, "let start = std::cmp::min(current_pos + indent_ofs, indent_pos);", "let start = current_pos + indent_ofs;"))
+
 # ---------------------------------------------------------------- benign variants (every rule silent)
 benign("b-c05-single-expression", (TL, "if self.current_time < expires.unwrap() {\n            return false;\n        }\n\n        true", "self.current_time >= expires.unwrap()"))
 benign("b-c05-format-shorthand", (TL, 'parse_from_str(&expires_str, "%Y-%m-%d %H:%M:%S %z")', 'parse_from_str(&expires_str, "%F %T %z")'))
@@ -124,6 +148,12 @@ benign("b-remover-negated-skip", (RM, "let range = if is_skip(&el.start_element)
 benign("b-unused-helper-and-comments", (RM, "fn is_skip(el: &Element) -> bool {", "// helper kept for later\n#[allow(dead_code)]\nfn never_called(x: usize) -> usize {\n    x\n}\n\nfn is_skip(el: &Element) -> bool {"))
 benign("b-unwrap-guard-ge-commuted", (UB, "if start > end {", "if end < start {"))
 
+benign("b-finder-commuted-bounds", (LB, "if cursor >= bytes.len() || cursor == 0 {", "if bytes.len() <= cursor || 0 == cursor {"))
+benign("b-empty-line-negated-eq", (EL, "if bytes.get(byte_pos) != Some(&b'\\n') {", "if !(bytes.get(byte_pos) == Some(&b'\\n')) {"))
+benign("b-unwrap-guard-two-lines", (UB, "if start > end {", "if start >= end {"))
+benign("b-format-let-introduced", (FM, "        let range = format_block(content, *pos, formatters);\n        ranges.push(range);", "        let p = *pos;\n        let range = format_block(content, p, formatters);\n        ranges.push(range);"))
+
 with open(os.path.join(os.path.dirname(os.path.abspath(__file__)), "mutants.json"), "w") as f:
     json.dump(C, f, indent=1)
 print(len(C), "variants")
+
